@@ -112,14 +112,14 @@ class DataboxWorld(World):
             "world": cls.NAME, "mode": "random",
             "freqs": freqs,
             "bases": {f: BASES[f](rng) for f in freqs},
-            "boxes": rng.randint(2, 4),
-            "actors": rng.randint(1, 2),
+            "boxes": rng.randint(2, 4) if tier == "quick" else rng.randint(2, 6),
+            "actors": rng.randint(1, 2) if tier == "quick" else rng.randint(1, 3),
             "paths": rng.randint(1, 3),
-            "steps": rng.choice([15, 25, 40]),
+            "steps": rng.choice([15, 25, 40]) if tier == "quick" else rng.choice([15, 25, 40, 80, 120]),
             "nan_density": rng.choice([0.0, 0.1, 0.3, 0.5]),
-            "max_len": rng.choice([2, 5, 9]),
-            "max_nv": rng.choice([1, 2, 3]),
-            "max_items": rng.choice([3, 5, 8]),
+            "max_len": rng.choice([2, 5, 9]) if tier == "quick" else rng.choice([2, 5, 9, 20]),
+            "max_nv": rng.choice([1, 2, 3]) if tier == "quick" else rng.choice([1, 2, 3, 4]),
+            "max_items": rng.choice([3, 5, 8]) if tier == "quick" else rng.choice([3, 5, 8, 12]),
             "fault_kinds": enabled,
             "p_fault": rng.choice([0.15, 0.3, 0.5]) if enabled else 0.0,
             "p_short": rng.choice([0.0, 0.3, 0.7]) if faulty else rng.choice([0.0, 0.2]),
